@@ -445,11 +445,32 @@ func parseSpecs(lines []ContractLine) *Specs {
 				errf(l, "bad ghost decl")
 			}
 		case "owner":
-			f := strings.Fields(body)
+			// owner Cxx pkg.Type.field loop | onloop pkg.Func | ownerinit pkg.Type in F1, F2
+			_, _, rest := takeProps(body)
+			f := strings.Fields(rest)
 			if len(f) >= 2 {
 				i := strings.LastIndex(f[0], ".")
 				S.Owners = append(S.Owners, OwnerDecl{Type: f[0][:i], Field: f[0][i+1:], Class: strings.Join(f[1:], " ")})
 			}
+			cur = nil
+		case "onloop":
+			f := strings.Fields(body)
+			for _, k := range f {
+				k = strings.TrimSuffix(k, ",")
+				if !strings.Contains(k, ".") || strings.HasPrefix(k, "(") {
+					k = l.Pkg + "." + k
+				}
+				i := strings.LastIndex(k, ".")
+				S.Owners = append(S.Owners, OwnerDecl{Type: k[:i], Field: k[i+1:], Class: "onloop"})
+			}
+			cur = nil
+		case "ownerinit":
+			// ownerinit pkg.Type in F1, F2
+			f := strings.SplitN(body, " in ", 2)
+			if len(f) == 2 {
+				S.Owners = append(S.Owners, OwnerDecl{Type: strings.TrimSpace(f[0]), Field: "*", Class: "init " + f[1]})
+			}
+			cur = nil
 		case "immutable":
 			// immutable Cxx pkg.Type.field in F1, F2: the field is stored only in the listed functions
 			// (constructors/options that run before the object is shared); wildcard havocs keep it.
